@@ -460,3 +460,22 @@ SHARED = {
 for _k, _v in SHARED.items():
     if _k in CLAIMS:
         CLAIMS[_k]['text'] += '  Rules shared from other properties (soft view, reported under this property\'s rule ids): ' + _v + '.'
+
+ROUND10 = {
+    'C01': 'the string storage of the name table ends where the table ends; the telemetry scope rule (shared with C09).',
+    'C02': 'KernCollider::initSlot interpreted with exact floats: positive slice width whatever the margin attribute; the slot chain stays NULL-terminated (REVERSEPAIR shared).',
+    'C05': 'an ill-formed code unit stands for U+FFFD and nothing else (text execution, shared with C12).',
+    'C06': 'decoder::analyse_opcode interpreted: every PUT_* action marks the position it overwrites as changed.',
+    'C08': 'a cached cmap block holds no uninitialised cell (PLANEROUTE shared); the telemetry category is switched at load time only.',
+    'C09': 'telemetry build, every unit: no function reachable from shaping declares a category guard.',
+    'C11': 'the count run builds its iterators with the iterator\'s own constructor.',
+    'C12': 'the value appended for an ill-formed unit is U+FFFD.',
+    'C16': 'Face::Face interpreted for caller structures of 8..48 bytes: release_table survives a longer gr_face_ops.',
+    'C17': 'mergeSlot\'s out-of-reach short circuit by symbolic execution; Pass::resolveCollisions interpreted on every small chain x forest x flags (the neighbours that must be merged); positionSlots before every collision pass.',
+    'C18': 'FeatureMap::findFeatureRef interpreted on ids that differ only in padding; the name string storage length.',
+    'C19': 'the prologue of Segment::justify interpreted for omitted pFirst / pLast with and without the reversal.',
+    'C20': 'local arrays, memcpy and be::peek on real byte arrays in the interpreter: an uninitialised tag byte is a violation.',
+}
+for _k, _v in ROUND10.items():
+    if _k in CLAIMS:
+        CLAIMS[_k]['text'] += '  Round 10: ' + _v
